@@ -146,10 +146,13 @@ def guard(f):
 
 def impl(c):
     from simfile.timing import TimingData
-    from simfile.timing._private.timingsource import timing_source
+    try:   # a private helper: observed when it exists, the public behaviour (TimingData, displaybpm) decides otherwise
+        from simfile.timing._private.timingsource import timing_source
+    except Exception:
+        timing_source = None
     from simfile.timing.displaybpm import displaybpm, StaticDisplayBPM, RangeDisplayBPM, RandomDisplayBPM
     sf, ch = build(c)
-    src = guard(lambda: "chart" if timing_source(sf, ch) is ch and ch is not None else "simfile")
+    src = guard(lambda: "chart" if timing_source(sf, ch) is ch and ch is not None else "simfile") if timing_source else ["ok", "unobserved"]
 
     def td():
         t = TimingData(sf, ch)
@@ -200,6 +203,12 @@ def model(c, ans):
     return {"source": src, "td": td, "displaybpm": db}
 
 
+def agree(io, mo):
+    if isinstance(io, dict) and io.get("source") == ["ok", "unobserved"] and isinstance(mo, dict):
+        mo = dict(mo, source=io["source"])
+    return io == mo
+
+
 def oracle(c, o):
     """the rule, restated: chart iff SSC simfile >= 0.7 and SSC chart with a non-empty timing value; then everything from that source"""
     if "__harness_exc__" in o:
@@ -211,7 +220,7 @@ def oracle(c, o):
     except Exception:
         return None
     want_chart = c["kind"] == "SSC" and c["ck"] == "SSC" and v >= Decimal("0.7") and any(chd.get(kk) for kk in TKEYS)
-    if o["source"] != ["ok", "chart" if want_chart else "simfile"]:
+    if o["source"] != ["ok", "unobserved"] and o["source"] != ["ok", "chart" if want_chart else "simfile"]:
         return "timing source is %s, the rule says %s" % (o["source"], "chart" if want_chart else "simfile")
     src = chd if want_chart else sfd
     from simfile.timing import BeatValues
